@@ -328,6 +328,15 @@ def main():
                     id_hash=H0, hash=hh, id_sig=sg, id_pubkey=RR, pubkey=QQ, c_code=c, model_code=mv)
                 cmp("id_verify[l=%d] error code" % l, c, mv, l=l, mutation=name, id_hash=H0, hash=hh,
                     id_sig=sg, id_pubkey=RR, pubkey=QQ)
+        # constructed twin of the H >= q case for id_sign: (k - (S0 + 2^l) e) mod q = 0, H = 2^{2l} - 1
+        k, H0, H = rq(), rh(), b"\xff" * no
+        V = E.mul(k, G)
+        S0 = bign.belt.hash(OID + le(l, V[0]) + H0 + H)[:l // 8]
+        e_int = k * pow(int.from_bytes(S0, "little") + 2 ** l, -1, q) % q
+        rc, isig, req = C.id_sign(l, OID, H0, H, le(l, e_int), chunks(l, k))
+        ms = m_call(bign.id_sign, l, OID, H0, H, e_int, chunks(l, k))
+        cmp("id_sign[l=%d] constructed H>=q" % l, (rc, isig), ms, l=l, id_hash=H0, hash=H, e=le(l, e_int),
+            tape=chunks(l, k))
         # e = 0 is allowed for id_sign; e = q is not
         for e_int in (0, q):
             rc, isig, req = C.id_sign(l, OID, rh(), rh(), le(l, e_int), chunks(l, 7))
